@@ -14,7 +14,7 @@ RULE = ("conn_run with a closed-loop peer: management queries (GetValues with a 
         "management replies in the transport log) and the next request until the EndRequest; neighbouring records are grouped into transport "
         "reads in every way the read script allows (one read per record, records glued together, 1-byte reads, spurious Pending); handlers read "
         "everything / part / nothing; write side accepts 1..n bytes or Pending. Violation state: no runnable task, task unfinished, peer waiting. "
-        "Non-trivial: at least one gated query; distinct = distinct case lines.")
+        "Class flush-fault-then-read: the transport flush fails, the handler swallows the error and reads on with its writers alive (harness-side assertions: the management reply reaches the transport, the task ends). Non-trivial: at least one gated query; distinct = distinct case lines.")
 ASSUMPTIONS = C07.ASSUMPTIONS + ["peer discipline as in the property's quantifier: bytes after a query are released only after its whole reply reached the transport"]
 
 
